@@ -53,12 +53,12 @@ def build(ctx):
 # case selection
 # --------------------------------------------------------------------------
 
-def _case_line(row, fmts, prec, mag, nf):
+def _case_line(row, fmts, prec, mag, nf, fprec, twin):
     typ, rows, cols, ext, fset, fid, z0c = row[:7]
     names = fmts[fid]
-    return "%s %d %d %d %s %s %s %s %s %d" % (
+    return "%s %d %d %d %s %s %s %s %s %d %s %d" % (
         typ, rows, cols, nf, ext, fset, ",".join(names) if names else "-",
-        z0c, prec, mag)
+        z0c, prec, mag, fprec, twin)
 
 
 def make_cases(table, tier, seed, path, quick_n=4200):
@@ -83,6 +83,13 @@ def make_cases(table, tier, seed, path, quick_n=4200):
             chosen += rng.sample(idxs, k)
         chosen.sort()
         plan = [(i, None) for i in chosen]
+        # histories the sample must not miss: file type fixed to Touchstone 1,
+        # saved under *.ts, promoted to version 2 (always on twin objects)
+        promo = [i for i, r in enumerate(rows)
+                 if r[3] == "ts" and r[4] == "ts1" and r[8] == "ts2"]
+        two = [i for i in promo if rows[i][2] == 2]
+        plan += [(i, "promo") for i in rng.sample(two, min(len(two), 40))]
+        plan += [(i, "promo") for i in rng.sample(promo, min(len(promo), 30))]
     else:
         plan = [(i, None) for i in range(len(rows))]
         plan += [(i, "second") for i, r in enumerate(rows) if r[7] == "accept"]
@@ -109,7 +116,18 @@ def make_cases(table, tier, seed, path, quick_n=4200):
                 nf = 0
             if r[0] != "undef" and rng.random() < 0.004:
                 nf = 0
-            fp.write(_case_line(r, fmts, prec, mag, nf) + "\n")
+            # frequency and data precision vary independently (7 = the
+            # default fprecision); in half of the cases cksave, save and
+            # fsave each get their own, identically built object
+            u = rng.random()
+            if u < 0.35:
+                fprec = prec
+            elif u < 0.5:
+                fprec = "7"
+            else:
+                fprec = rng.choice(PRECS)
+            twin = 1 if tag == "promo" else rng.randrange(2)
+            fp.write(_case_line(r, fmts, prec, mag, nf, fprec, twin) + "\n")
             n += 1
     return n
 
@@ -131,11 +149,12 @@ def _case_fields(lines):
     if not m:
         return None
     p = m.group(1).split(":")
-    if len(p) != 13:
+    if len(p) != 15:
         return None
     return {"id": m.group(1), "type": p[3], "rows": int(p[4]), "cols": int(p[5]),
             "nf": int(p[6]), "ext": p[7], "set": p[8], "fmt": p[9],
-            "z0c": p[10], "prec": p[11], "mag": p[12]}
+            "z0c": p[10], "prec": p[11], "mag": p[12], "fprec": p[13],
+            "twin": p[14]}
 
 
 def _prec_class(p):
